@@ -22,7 +22,6 @@ import (
 	"github.com/transparency-dev/witness/internal/feeder/rekor"
 	"github.com/transparency-dev/witness/internal/feeder/sumdb"
 	"github.com/transparency-dev/witness/internal/feeder/tiles"
-	"github.com/transparency-dev/witness/omniwitness"
 	"github.com/transparency-dev/witness/verifharness/internal/ref"
 	"github.com/transparency-dev/witness/verifharness/internal/stublog"
 	"github.com/transparency-dev/witness/verifharness/internal/world"
@@ -140,7 +139,7 @@ func tileMain(args []string) error {
 			}
 			t := tlog.Tile{H: tv.H, L: tv.L, N: tv.N, W: tv.W}
 			lastPath = ""
-			_, _ = sumdb.VerifReadTiles(sdb, []tlog.Tile{t})
+			_, _ = shimReadTiles(sdb, []tlog.Tile{t})
 			mu.Lock()
 			req := lastPath
 			mu.Unlock()
@@ -264,7 +263,7 @@ func tileMain(args []string) error {
 					return
 				}
 				sl.Publish(0, p.to)
-				rw := &recWitness{inner: omniwitness.VerifWitnessAdapter(wit)}
+				rw := &recWitness{inner: witnessAdapterOf(wit)}
 				ferr := feed(ctx, lc, rw, ts.Client(), 0)
 				cancel()
 				r2 := l.Trees[0].Root(p.to)
@@ -296,7 +295,7 @@ func tileMain(args []string) error {
 					return
 				}
 				sl.Publish(0, sizes[0])
-				rw := &recWitness{inner: omniwitness.VerifWitnessAdapter(wit)}
+				rw := &recWitness{inner: witnessAdapterOf(wit)}
 				ctx, cancel := context.WithCancel(context.Background())
 				done := make(chan error, 1)
 				go func() { done <- feed(ctx, lc, rw, ts.Client(), 25*time.Millisecond) }()
